@@ -87,7 +87,7 @@ def run(ctx):
             raise ToolError(f"vacuity: switching {g} off no longer violates anything")
     # 3. production TxDependency under the controller
     out = ctx.path("dep.ndjson")
-    args = {"groups": ["SCHED", "DEP", "DEPX"], "policy": "dfs", "preemption_bound": 2 if ctx.quick() else 3,
+    args = {"groups": ["SCHED", "DEP", "DEPX", "ATOMIC"], "policy": "dfs", "preemption_bound": 2 if ctx.quick() else 3,
             "max_runs": 1500 if ctx.quick() else 40000, "out": out, "scripts": scripts, "seed": ctx.seed}
     r1 = ctx.vh("dep", args, timeout=3000)
     out2 = ctx.path("dep_rand.ndjson")
